@@ -14,6 +14,7 @@ pub type PCOf<S> = <S as Sch>::PC;
 pub type POf<S> = <S as Sch>::P;
 pub type PointOf<S> = <<S as Sch>::P as Polynomial<SF>>::Point;
 pub type CkOf<S> = <PCOf<S> as PolynomialCommitment<SF, POf<S>>>::CommitterKey;
+pub type PpOf<S> = <PCOf<S> as PolynomialCommitment<SF, POf<S>>>::UniversalParams;
 pub type VkOf<S> = <PCOf<S> as PolynomialCommitment<SF, POf<S>>>::VerifierKey;
 pub type CommOf<S> = <PCOf<S> as PolynomialCommitment<SF, POf<S>>>::Commitment;
 pub type StateOf<S> = <PCOf<S> as PolynomialCommitment<SF, POf<S>>>::CommitmentState;
@@ -93,6 +94,7 @@ impl Cfg {
 
 pub struct World<S: Sch> {
     pub cfg: Cfg,
+    pub pp: PpOf<S>,
     pub ck: CkOf<S>,
     pub vk: VkOf<S>,
     pub lps: Vec<LabeledPolynomial<SF, POf<S>>>,
@@ -115,7 +117,7 @@ pub fn sponge_like(pre: &RoSponge) -> RoSponge {
     pre.clone()
 }
 
-pub fn keys<S: Sch>(cfg: &Cfg) -> Result<(CkOf<S>, VkOf<S>, StdRng), Verdict> {
+pub fn keys<S: Sch>(cfg: &Cfg) -> Result<(CkOf<S>, VkOf<S>, StdRng, PpOf<S>), Verdict> {
     let mut rng = StdRng::seed_from_u64(cfg.seed.wrapping_mul(0x9E37_79B9).wrapping_add(7));
     let pp = S::setup(&cfg.sz, &mut rng).map_err(|e| Verdict::viol("setup-err", e))?;
     let enforced: Option<Vec<usize>> = match &cfg.enforced {
@@ -130,7 +132,7 @@ pub fn keys<S: Sch>(cfg: &Cfg) -> Result<(CkOf<S>, VkOf<S>, StdRng), Verdict> {
         }
     };
     let (ck, vk) = PCOf::<S>::trim(&pp, cfg.sz.supported, cfg.sz.hiding, enforced.as_deref()).map_err(|e| Verdict::viol("trim-err", errname(&e)))?;
-    Ok((ck, vk, rng))
+    Ok((ck, vk, rng, pp))
 }
 
 pub fn polys<S: Sch>(cfg: &Cfg, rng: &mut StdRng) -> (Vec<LabeledPolynomial<SF, POf<S>>>, Vec<Vec<SF>>) {
@@ -157,13 +159,13 @@ pub fn points<S: Sch>(cfg: &Cfg, rng: &mut StdRng) -> Vec<(String, PointOf<S>)> 
 }
 
 pub fn build<S: Sch>(cfg: &Cfg) -> Result<World<S>, Verdict> {
-    let (ck, vk, mut rng) = keys::<S>(cfg)?;
+    let (ck, vk, mut rng, pp) = keys::<S>(cfg)?;
     let (lps, coeffs) = polys::<S>(cfg, &mut rng);
     RNG_NONZERO.with(|c| c.set(cfg.rng_nonzero));
     let r = with_sym_rng(cfg.sym_rng, || PCOf::<S>::commit(&ck, &lps, Some(&mut rng)));
     let (comms, states) = r.map_err(|e| Verdict::viol(&format!("commit-err:{}", errname(&e)), format!("{:?}", e)))?;
     let pts = points::<S>(cfg, &mut rng);
-    Ok(World { cfg: cfg.clone(), ck, vk, lps, coeffs, comms, states, points: pts, rng })
+    Ok(World { cfg: cfg.clone(), pp, ck, vk, lps, coeffs, comms, states, points: pts, rng })
 }
 
 impl<S: Sch> World<S> {
